@@ -70,9 +70,10 @@ def crm(env, num_x, num_y, s, c):
 
 @job("c14.multi_section", ("C14",), cfgs=[dict(nsec=2, nx=2, ny=(3, 3), symmetry=True), dict(nsec=3, nx=2, ny=(3, 2, 3), symmetry=True),
                                            dict(nsec=5, nx=2, ny=(2, 3, 2, 2, 3), symmetry=True),      # beyond any "first/last section" special case
+                                           dict(nsec=3, nx=2, ny=(3, 3, 3), symmetry=False, root_section=1),      # a section right of the root
                                            dict(nsec=3, nx=3, ny=(3, 4, 3), symmetry=True, _tier=T)],
      ranges=[(r"^b|^t|^c0", 0.7, 1.4), (r"^sw", 0.05, 0.3)], cost=10)
-def multi_section(env, nsec, nx, ny, symmetry):
+def multi_section(env, nsec, nx, ny, symmetry, root_section=None):
     """multi-section meshes (per-section span b_k^2, taper t_k^2, sweep): sections join with coincident edges; the unified
     mesh equals the contiguous generated mesh node for node; chords follow the product of the tapers"""
     from openaerostruct.geometry.geometry_mesh_gen import generate_mesh as gen_multi
@@ -86,9 +87,16 @@ def multi_section(env, nsec, nx, ny, symmetry):
     surf = dict(name="surface", is_multi_section=True, num_sections=nsec, sec_name=["sec%d" % k for k in range(nsec)], symmetry=symmetry,
                 taper=[t[k] * t[k] for k in range(nsec)], span=[b[k] * b[k] for k in range(nsec)], sweep=[sw[k] for k in range(nsec)],
                 root_chord=c0 * c0, meshes="gen-meshes", nx=nx, ny=list(ny))
+    if root_section is not None:
+        surf["root_section"] = root_section
     for path, (mesh, secs) in env.explore(lambda: env.call(gen_multi, surf)):
         if env.sym and any(isinstance(cnd, S.SymBool) and cnd.op == '==' and bb for cnd, bb in path):
             continue                      # tip_le == tip_te: a section tapering to a point (taper 0), outside the box
+        if not symmetry:
+            for k in range(nsec - 1):
+                env.eq("C14", "full-span surface given by sections on both sides of the root: sections %d and %d join with a coincident edge" % (k, k + 1),
+                       secs[k][:, -1, :], secs[k + 1][:, 0, :])
+            continue
         for k in range(nsec - 1):
             env.eq("C14", "sections %d and %d join with a coincident edge" % (k, k + 1), secs[k][:, -1, :], secs[k + 1][:, 0, :])
         chord = c0 * c0
